@@ -12,7 +12,7 @@ import subprocess
 from vlib import COQ, GOENV, REPO, VERIF, build_govalid, coq_make, go_build, log, run, scratch
 
 GEN_IMPORT = ("From GV Require Import Base.Bytes Base.StrOps Base.GoFloat GoLite.Syntax GoLite.Sem "
-              "GoLite.Safety Gen.Decl Gen.Rules Gen.Template Gen.Spec Gen.Guard Gen.Harness Gen.Names.\n")
+              "GoLite.Safety Gen.Decl Gen.Rules Gen.Template Gen.Spec Gen.Guard Gen.Typed Gen.Harness Gen.Names.\n")
 
 
 def hexbytes_coq(h):
@@ -223,7 +223,7 @@ class GenRun:
                          "(match f_nilguard f with Some _ => 0 | None => 2 end) + (if f_tail_ok f then 0 else 4) + (if f_wrappers_ok f then 0 else 8) + "
                          "(if uses_declared_b f then 0 else 16) + (if nodup_b (declared_names f) then 0 else 32) | None => 0 end." % (i, i))
             # hypotheses of C08_no_duplicate_declaration_flat on the declaration: 1 = flat, 2 = no Min/Max clash
-            lines.append("Definition hyp_%d := Eval vm_compute in (if flat d_%d then 1 else 0) + (if no_clash (field_names d_%d) then 2 else 0)." % (i, i, i))
+            lines.append("Definition hyp_%d := Eval vm_compute in (if flat d_%d then 1 else 0) + (if no_clash (field_names d_%d) then 2 else 0) + (if params_ok tab_%d d_%d then 4 else 0)." % (i, i, i, i, i))
             lines.append("Definition res_%d := (%d%%nat, ok_%d, diff_%d, mm_%d, ms_%d, calls_%d, allocs_%d, kf_%d, gcalls_%d, safe_%d, hyp_%d)." % (i, i, i, i, i, i, i, i, i, i, i, i))
         n = len(self.meta)
         lines.append("Definition all_results := [%s]." % "; ".join("res_%d" % m["index"] for m in self.meta))
